@@ -1201,4 +1201,102 @@ impl<RW: QueueRW<T>, T> Stream for &FutInnerRecv<RW, T> {""")]),
         Vec::from_raw_parts(tofree, 0, num);
     }""", """    let v = unsafe { Vec::from_raw_parts(tofree, 0, num) };
     drop(v);""")], kind='refactor'),
+    V('rf-checkref-early-return', None, [], [E(MQ, """    fn check_ref(r: &AtomicUsize) -> bool {
+        r.load(Relaxed) == 0
+    }""", """    fn check_ref(r: &AtomicUsize) -> bool {
+        if r.load(Relaxed) != 0 {
+            return false;
+        }
+        true
+    }""")], kind='refactor'),
+    V('rf-checkref-match', None, [], [E(MQ, """    fn check_ref(r: &AtomicUsize) -> bool {
+        r.load(Relaxed) == 0
+    }""", """    fn check_ref(r: &AtomicUsize) -> bool {
+        match r.load(Relaxed) {
+            0 => true,
+            _ => false,
+        }
+    }""")], kind='refactor'),
+    V('rf-checkref-zst-shortcut', None, [], [E(MQ, """    fn check_ref(r: &AtomicUsize) -> bool {
+        r.load(Relaxed) == 0
+    }""", """    fn check_ref(r: &AtomicUsize) -> bool {
+        let pinned = r.load(Relaxed) != 0;
+        if pinned && mem::needs_drop::<T>() {
+            return false;
+        }
+        !pinned
+    }""")], kind='refactor'),
+    V('bcast-pin-skipped-nodrop', 'C04', ['P3c', 'P3b', 'S1'], [E(MQ, """    fn inc_ref(r: &AtomicUsize) {
+        r.fetch_add(1, atomic_utilities::fence_rmw::RMWOrder);
+        atomic_utilities::fence_rmw::fence_rmw();
+    }""", """    fn inc_ref(r: &AtomicUsize) {
+        if mem::needs_drop::<T>() {
+            r.fetch_add(1, atomic_utilities::fence_rmw::RMWOrder);
+            atomic_utilities::fence_rmw::fence_rmw();
+        }
+    }""")]),
+    V('yielding-wait-zero-spins-hang', 'C08', ['P7i'], [E('src/wait.rs', """            yield_now();
+            // checked after every yield, so the wait also ends when spins_yield is 0
+            if check(seq, w_pos, wc) {
+                return;
+            }
+            for _ in 0..self.spins_yield {""", """            yield_now();
+            for _ in 0..self.spins_yield {""")]),
+    V('rf-yielding-wait-do-while', None, [], [E('src/wait.rs', """            yield_now();
+            // checked after every yield, so the wait also ends when spins_yield is 0
+            if check(seq, w_pos, wc) {
+                return;
+            }
+            for _ in 0..self.spins_yield {
+                if check(seq, w_pos, wc) {
+                    return;
+                }
+            }""", """            yield_now();
+            let mut spun = 0;
+            loop {
+                if check(seq, w_pos, wc) {
+                    return;
+                }
+                spun += 1;
+                if spun >= self.spins_yield {
+                    break;
+                }
+            }""")], kind='refactor'),
+    V('busy-wait-pause-without-check', 'C08', ['P7i'], [E('src/wait.rs', """impl Wait for BusyWait {
+    #[cold]
+    fn wait(&self, seq: usize, w_pos: &AtomicUsize, wc: &AtomicUsize) {
+        loop {
+            if check(seq, w_pos, wc) {
+                return;
+            }
+        }""", """impl Wait for BusyWait {
+    #[cold]
+    fn wait(&self, seq: usize, w_pos: &AtomicUsize, wc: &AtomicUsize) {
+        if check(seq, w_pos, wc) {
+            return;
+        }
+        loop {
+            if wc.load(Relaxed) == 0 {
+                return;
+            }
+        }""")]),
+    V('fut-add-stream-with-clones', 'C10', ['P10h'], [E(MQ, """    pub fn add_stream_with<Q, FQ: FnMut(&T) -> Q>(&self, op: FQ) -> FutInnerUniRecv<RW, Q, FQ, T> {
+        let rx = self.reader.add_stream();""", """    pub fn add_stream_with<Q, FQ: FnMut(&T) -> Q>(&self, op: FQ) -> FutInnerUniRecv<RW, Q, FQ, T> {
+        let rx = self.reader.clone();""")]),
+    V('fut-into-single-adds-stream', 'C05', ['P10h', 'P9g'], [E(MQ, """            new_mreader = self.reader.clone();
+            drop(self);""", """            new_mreader = self.reader.add_stream();
+            drop(self);""")]),
+    V('fut-clone-adds-stream', 'C09', ['P10h'], [E(MQ, """impl<RW: QueueRW<T>, T> Clone for FutInnerRecv<RW, T> {
+    fn clone(&self) -> FutInnerRecv<RW, T> {
+        FutInnerRecv {
+            reader: self.reader.clone(),""", """impl<RW: QueueRW<T>, T> Clone for FutInnerRecv<RW, T> {
+    fn clone(&self) -> FutInnerRecv<RW, T> {
+        FutInnerRecv {
+            reader: self.reader.add_stream(),""")]),
+    V('rf-fut-add-stream-qualified', None, [], [E(MQ, """    pub fn add_stream(&self) -> FutInnerRecv<RW, T> {
+        let rx = self.reader.add_stream();
+        FutInnerRecv {
+            reader: rx,""", """    pub fn add_stream(&self) -> FutInnerRecv<RW, T> {
+        FutInnerRecv {
+            reader: InnerRecv::add_stream(&self.reader),""")], kind='refactor'),
 ]
